@@ -131,7 +131,7 @@ __CPROVER_decreases(prm.maxiter - iter)
 '''
 
 cg = Unit(
-    name='solver_cg', props=['C01', 'C15', 'C10'],
+    name='solver_cg', props=['C01', 'C15', 'C10'], replay='orchestration',
     functions=['solver::cg<Backend>::operator()(A, P, rhs, x)'],
     desc='CG solve body: budget, reported residual is the norm of the carried residual vector / ||rhs||, x/r updates paired, '
          'workspace never read before written, zero rhs exit, converged guess returned unchanged, rhs/A never written',
@@ -236,7 +236,7 @@ __CPROVER_decreases(prm.maxiter - iter)
 """
 
 richardson = Unit(
-    name='solver_richardson', props=['C01', 'C05', 'C15', 'C10'],
+    name='solver_richardson', props=['C01', 'C05', 'C15', 'C10'], replay='orchestration',
     functions=['solver::richardson<Backend>::operator()(A, P, rhs, x)'],
     desc='Richardson: x <- x + damping * P (rhs - A x), k times; reported residual is the norm of residual(rhs,A,x) of the returned x',
     cuts={'body': Cut('amgcl/solver/richardson.hpp', SIG4, rules=DROP_IO + SOLVER_RULES, uf=SOLVER_UF,
